@@ -27,30 +27,27 @@ Qed.
 Ltac step H x gx E := lazymatch type of H with gbind ?t _ = _ => destruct t as [[x gx]|] eqn:E; [|discriminate]; cbn [gbind] in H end.
 
 Theorem regex_find_all_order_lemma d g e g' gs rc gs' text :
-  wf_disj d [] -> reg_disj d -> ord_disj d -> gs_ok gs ->
+  wf_disj d [] -> oreg_disj d -> gs_ok gs ->
   parse_regexp (show_disj d) g = POk (e, g') ->
   resolve_exprs (ECons e ENil) 0 gs = GOk (rc, gs') ->
   exists F, forall fuel, F <= fuel ->
     exists M, find_matches fuel (compile rc 0) text true 0 0 0 = SOk M /\
       rscan text d 0 (map (fun m => (mstart m, mend m)) M).
 Proof.
-  intros Hwf Hreg Hordd Hgs Hparse Hres.
+  intros Hwf Hreg Hgs Hparse Hres.
   pose proof (parse_regexp_lists (show_disj d) g) as Hlists. rewrite Hparse in Hlists. cbn in Hlists.
   rewrite (regex_roundtrip_lemma d g Hwf) in Hparse. inversion Hparse; subst e g'. clear Hparse.
   cbn [resolve_exprs resolve_expr resolve_lit] in Hres. step Hres r g1 Er. inversion Hres; subst rc gs'. clear Hres.
-  destruct (proj2 (proj2 (proj2 (regex_lang_mut (defs_of (XSeq r XEps))))) d Hreg g 0 gs r g1 Er) as [Hp Hw].
-  assert (Hflat : flat r).
-  { eapply (proj2 (proj2 resolve_plain_flat_mut)); [|exact Er]. apply (proj2 (proj2 (proj2 reg_plain_mut))). exact Hreg. }
+  assert (Hall : forall off, okr text off (defs_of (XSeq r XEps)) r (rd_ord text d)).
+  { intros off. exact (proj2 (proj2 (proj2 (regex_order_mut text off (defs_of (XSeq r XEps))))) d Hreg g 0 gs r g1 Er). }
+  destruct (Hall 0) as (_ & Hsimple0 & Hflat).
   assert (Hok : loop_ok (XSeq r XEps)).
   { split; [|exact I]. destruct (proj2 (proj2 resolve_ok_mut) _ Hlists 0 gs r g1 Hgs Er) as [H _]. exact H. }
-  assert (Hsimple : simple (XSeq r XEps)) by (split; [apply flat_simple; assumption|exact I]).
-  assert (Hdefs : forall t b p, defs_of (XSeq r XEps) t = Some (b, p) -> p = PNil /\ pure b).
-  { intros t b p H. unfold defs_of in H. cbn [subs_of] in H. rewrite (flat_subs r Hflat) in H. discriminate. }
+  assert (Hsimple : simple (XSeq r XEps)) by (split; [assumption|exact I]).
   destruct (sscan_total (XSeq r XEps) text Hsimple (S (length text)) 0 ltac:(lia)) as (S0 & HS).
   destruct (find_correct_lemma (XSeq r XEps) text Hok S0 HS) as (F & HF).
   exists F. intros fuel Hfuel. destruct (HF fuel Hfuel) as (M & HM & Hspans & _ & _). exists M. split; [exact HM|].
   assert (Hord : forall off, ordered text off (defs_of (XSeq r XEps)) (XSeq r XEps) (rd_ord text d)).
-  { intros off. apply ordered_seq_eps.
-    exact (proj2 (proj2 (proj2 (regex_order_mut text off (defs_of (XSeq r XEps)) Hdefs))) d Hreg Hordd g 0 gs r g1 Er). }
+  { intros off. apply ordered_seq_eps. exact (proj1 (Hall off)). }
   pose proof (sscan_rscan (XSeq r XEps) d text Hord 0 S0 HS) as HR. rewrite <- Hspans in HR. unfold ends_of in HR. rewrite map_map in HR. exact HR.
 Qed.
